@@ -234,6 +234,16 @@ def main(argv):
                         b = [(other, total, o, ln) for (o, ln) in operm]
                         for s in merges(a, b, 40 if tier == 'quick' else 400):
                             run_sequence(s, fails, stats, 'interleaved')
+            # a stray fragment of the same identity announcing another total length, arriving once the entry exists: it is
+            # a fragment -- whatever the reassembly makes of it, it is never delivered as a bundle, and the bundle is
+            # still delivered exactly once when its octets are there (the stray's octets agree with the original's)
+            if 2 <= len(pieces) <= 3 and total >= 5:
+                for perm in perms:
+                    for pos in range(1, len(perm) + 1):
+                        for (t2, so, sl) in ((total - 1, 1, 2), (total + 3, 0, 1), (total - 2, total - 4, 2)):
+                            s2 = [(A, total, o, ln) for (o, ln) in perm]
+                            s2.insert(pos, (A, t2, so, sl))
+                            run_sequence(s2, fails, stats, 'stray-total-length')
             if len(samples) < 3 and len(pieces) == 3:
                 samples.append({'total': total, 'pieces': pieces})
         if len(fails) > 20:
@@ -241,7 +251,8 @@ def main(argv):
     out = {'tool': 'enumeration on the real agent (receive chain with the real Fragment application, virtual GLib loop)',
            'bound': 'payload lengths %s; fragmentations into 1..4 pieces (uniform, uneven, overlapping); all arrival '
                     'permutations; all single duplications (sets of up to 3); order-preserving merges with a second '
-                    'bundle differing in sequence number or in source (payloads up to 24 octets)' % totals,
+                    'bundle differing in sequence number or in source (payloads up to 24 octets); one stray fragment of the same '
+                    'identity announcing another total length at every later position (sets of 2..3)' % totals,
            'evaluations': stats['evaluations'], 'distinct_nontrivial': stats['evaluations'],
            'rule': 'one case = one arrival sequence fed to a fresh agent; distinct by construction',
            'samples': samples, 'failures': fails[:20], 'exhaustive': False}
